@@ -196,6 +196,20 @@ def tc_check(repo, res, fn_q, enum, accepted, allow, extra_ok_adaptors=(), rule=
         return 0
     matches = find_enum_matches(repo, fn, enum)
     if not matches:
+        # the tabled function may have become a thin wrapper: the traversal (with this row's allowances) is then its delegate's
+        d = A.delegate(repo, fn)
+        if d is not None and find_enum_matches(repo, d[0], enum):
+            done = res.__dict__.setdefault("_tc_delegates", {})
+            prev = done.get((rule, d[0].qname))
+            if prev is not None:
+                if prev != dict(allow):
+                    # two wrappers of one traversal with different allowances: re-check under the second set as well
+                    pass
+                else:
+                    return 0
+            done[(rule, d[0].qname)] = dict(allow)
+            res.ok(rule, f"{rule}:{fn_q}:delegates", f"{fn_q} is a wrapper of {d[0].qname}" + (f" with {d[1]}" if d[1] else "") + ": the traversal is checked there under this row's allowances", fn.loc())
+            return tc_check(repo, res, d[0].qname, enum, set(accepted) | {fn.name}, allow, extra_ok_adaptors, rule)
         res.undecided(rule, f"{rule}:{fn_q}", f"no match over {enum} found in {fn_q}", fn.loc())
         return 0
     envs = A.collect_envs(fn)
@@ -276,6 +290,10 @@ def rp_check(repo, res, fn_q, enum, accepted, flows, rule="RP"):
     if fn is None:
         res.undecided(rule, f"{rule}:{fn_q}", f"function {fn_q} not found")
         return 0
+    if not find_enum_matches(repo, fn, enum):
+        d = A.delegate(repo, fn)
+        if d is not None and find_enum_matches(repo, d[0], enum):
+            return rp_check(repo, res, d[0].qname, enum, set(accepted) | {fn.name}, flows, rule)
     envs = A.collect_envs(fn)
     accepted = set(accepted) | {fn.name}
     n = 0
